@@ -910,6 +910,452 @@ example : simple (.ttuple [.ttuple [.tstruct ['a'], .tstruct ['b']], .tarray 3 (
 example : goTypeNameFor (.ttuple [.ttuple [.tstruct ['a'], .tstruct ['b']], .tstruct ['c']]) = "Tuple2_Tuple2_a_b_c".toList ∧
     goTypeNameFor (.ttuple [.tstruct ['a'], .ttuple [.tstruct ['b'], .tstruct ['c']]]) = "Tuple2_a_Tuple2_b_c".toList := by decide
 
+/-! ## C19.6 `ty_compact` — the spelling `ensure_instance` and `spec_name_for` use for type arguments -/
+
+def tyCompacts (ts : List Ty) : List Name := ts.map tyCompact
+/-- comma-joined compact spellings -/
+def joinC (ts : List Ty) : Name := join [','] (tyCompacts ts)
+
+theorem tyPrettys_eq_map (ts : List Ty) : tyPrettys ts = ts.map tyPretty := by
+  induction ts with
+  | nil => simp [tyPrettys]
+  | cons t ts ih => simp [tyPrettys, ih]
+
+theorem filter_join (p : Char → Bool) (sep : Name) (xs : List Name) :
+    (join sep xs).filter p = join (sep.filter p) (xs.map (List.filter p)) := by
+  induction xs with
+  | nil => simp [join]
+  | cons x rest ih =>
+    cases rest with
+    | nil => simp [join]
+    | cons y rest' =>
+      simp only [join, List.filter_append, List.map_cons] at ih ⊢
+      rw [ih]
+
+theorem compact_sep : (", ".toList).filter (fun c => !isWhitespace c) = [','] := by decide
+
+theorem compact_join (ts : List Ty) :
+    (join ", ".toList (tyPrettys ts)).filter (fun c => !isWhitespace c) = joinC ts := by
+  rw [filter_join, compact_sep, tyPrettys_eq_map]
+  simp only [joinC, tyCompacts, List.map_map]
+  rfl
+
+theorem tyCompact_tuple (ts : List Ty) : tyCompact (.ttuple ts) = '(' :: joinC ts ++ [')'] := by
+  have h := compact_join ts
+  have e : [',', ' '] = ", ".toList := by decide
+  simp only [tyCompact, tyPretty, List.filter_append, List.cons_append, List.nil_append, List.filter_cons]
+  rw [e, h]
+  have h1 : isWhitespace '(' = false := by decide
+  have h2 : isWhitespace ')' = false := by decide
+  simp [h1, h2]
+
+theorem tyCompact_app (t : Ty) (a : Ty) (as : List Ty) :
+    tyCompact (.tapp t (a :: as)) = tyCompact t ++ '[' :: joinC (a :: as) ++ [']'] := by
+  have h := compact_join (a :: as)
+  have e : [',', ' '] = ", ".toList := by decide
+  simp only [tyCompact, tyPretty, List.filter_append, List.cons_append, List.nil_append, List.filter_cons]
+  rw [e, h]
+  have h1 : isWhitespace '[' = false := by decide
+  have h2 : isWhitespace ']' = false := by decide
+  simp [h1, h2, tyCompact]
+
+def primDocSpellings : List Name := Prim.all.map toDocPrim
+
+/-- side condition on struct names: non-empty, identifier characters only, not the spelling of a primitive -/
+def identOk (n : Name) : Bool := !n.isEmpty && n.all isIdentChar && !primDocSpellings.contains n
+
+mutual
+/-- the fragment: primitives, structs with `identOk` names, tuples (any arity, `()` and `(a)` included),
+applications `S[a, …]` of such a struct to at least one argument — nested arbitrarily -/
+def cfrag : Ty → Bool
+  | .prim _ => true
+  | .tstruct n => identOk n
+  | .ttuple ts => cfrags ts
+  | .tapp t args => (match t with | .tstruct n => identOk n | _ => false) && !args.isEmpty && cfrags args
+  | _ => false
+def cfrags : List Ty → Bool
+  | [] => true
+  | t :: ts => cfrag t && cfrags ts
+end
+
+/-- what may follow a complete type spelling inside a larger one -/
+def stopOk : Name → Bool
+  | [] => true
+  | c :: _ => c == ',' || c == ')' || c == ']'
+
+def headNot (p : Char → Bool) : Name → Bool
+  | [] => true
+  | c :: _ => !p c
+
+theorem run_unique (p : Char → Bool) {x y r r' : Name} (hx : x.all p = true) (hy : y.all p = true)
+    (hr : headNot p r = true) (hr' : headNot p r' = true) (h : x ++ r = y ++ r') : x = y ∧ r = r' := by
+  induction x generalizing y with
+  | nil =>
+    cases y with
+    | nil => exact ⟨rfl, h⟩
+    | cons d y' =>
+      simp only [List.nil_append, List.cons_append] at h
+      simp only [List.all_cons, Bool.and_eq_true] at hy
+      rw [h] at hr
+      simp [headNot, hy.1] at hr
+  | cons c x' ih =>
+    cases y with
+    | nil =>
+      simp only [List.nil_append, List.cons_append] at h
+      simp only [List.all_cons, Bool.and_eq_true] at hx
+      rw [← h] at hr'
+      simp [headNot, hx.1] at hr'
+    | cons d y' =>
+      simp only [List.cons_append, List.cons.injEq] at h
+      simp only [List.all_cons, Bool.and_eq_true] at hx hy
+      obtain ⟨e1, e2⟩ := ih hx.2 hy.2 h.2
+      exact ⟨by rw [h.1, e1], e2⟩
+
+theorem stop_headNot {r : Name} (h : stopOk r = true) : headNot isIdentChar r = true := by
+  cases r with
+  | nil => rfl
+  | cons c r' =>
+    simp only [stopOk, Bool.or_eq_true, beq_iff_eq] at h
+    have : isIdentChar c = false := by
+      rcases h with (h | h) | h <;> (rw [h]; decide)
+    simp [headNot, this]
+
+theorem primDoc_ident : ∀ p : Prim, (toDocPrim p).all isIdentChar = true ∧ toDocPrim p ≠ [] := by
+  intro p; cases p <;> decide
+
+theorem primDoc_injective : ∀ p q : Prim, toDocPrim p = toDocPrim q → p = q := by
+  intro p q; cases p <;> cases q <;> first | (intro _; rfl) | (intro h; exact absurd h (by decide))
+
+theorem tyCompact_prim (p : Prim) : tyCompact (.prim p) = toDocPrim p := by cases p <;> decide
+
+theorem identChar_not_ws {c : Char} (h : isIdentChar c = true) : isWhitespace c = false := by
+  cases hw : isWhitespace c with
+  | false => rfl
+  | true =>
+    exfalso
+    simp only [isWhitespace, Bool.or_eq_true, Bool.and_eq_true, decide_eq_true_eq, beq_iff_eq] at hw
+    simp only [isIdentChar, isAsciiAlnum, isAsciiAlpha, isAsciiLower, isAsciiUpper, isAsciiDigit, Bool.or_eq_true,
+      Bool.and_eq_true, decide_eq_true_eq, beq_iff_eq] at h
+    have h95 : c = '_' → c.toNat = 95 := fun e => by rw [e]; rfl
+    rcases h with ((h | h) | h) | h
+    · omega
+    · omega
+    · omega
+    · have := h95 h; omega
+
+theorem tyCompact_struct {n : Name} (h : n.all isIdentChar = true) : tyCompact (.tstruct n) = n := by
+  simp only [tyCompact, tyPretty]
+  induction n with
+  | nil => rfl
+  | cons c r ih =>
+    simp only [List.all_cons, Bool.and_eq_true] at h
+    simp [identChar_not_ws h.1, ih h.2]
+
+theorem identOk_parts {n : Name} (h : identOk n = true) :
+    n.all isIdentChar = true ∧ n ≠ [] ∧ ∀ p : Prim, toDocPrim p ≠ n := by
+  simp only [identOk, Bool.and_eq_true, Bool.not_eq_true', List.isEmpty_eq_false_iff] at h
+  refine ⟨h.1.2, h.1.1, fun p heq => ?_⟩
+  have hm : n ∈ primDocSpellings := by rw [← heq]; exact List.mem_map.mpr ⟨p, prim_mem_all p, rfl⟩
+  have : primDocSpellings.contains n = true := by simpa using hm
+  rw [h.2] at this
+  exact Bool.noConfusion this
+
+def isAtom : Ty → Bool
+  | .prim _ => true
+  | .tstruct _ => true
+  | _ => false
+
+/-- the three shapes of a fragment type -/
+theorem cfrag_cases (u : Ty) (hu : cfrag u = true) :
+    (isAtom u = true) ∨ (∃ us, u = .ttuple us ∧ cfrags us = true) ∨
+    (∃ n a as, u = .tapp (.tstruct n) (a :: as) ∧ identOk n = true ∧ cfrags (a :: as) = true) := by
+  cases u with
+  | prim p => exact Or.inl rfl
+  | tstruct n => exact Or.inl rfl
+  | ttuple us => simp only [cfrag] at hu; exact Or.inr (Or.inl ⟨us, rfl, hu⟩)
+  | tapp t args =>
+    simp only [cfrag, Bool.and_eq_true] at hu
+    cases t with
+    | tstruct n =>
+      cases args with
+      | nil => simp at hu
+      | cons a as => exact Or.inr (Or.inr ⟨n, a, as, rfl, hu.1.1, hu.2⟩)
+    | _ => simp at hu
+  | _ => simp [cfrag] at hu
+
+theorem atom_spelling {t : Ty} (ha : isAtom t = true) (ht : cfrag t = true) :
+    (tyCompact t).all isIdentChar = true ∧ tyCompact t ≠ [] := by
+  cases t with
+  | prim p => rw [tyCompact_prim]; exact primDoc_ident p
+  | tstruct n =>
+    simp only [cfrag] at ht
+    obtain ⟨h1, h2, _⟩ := identOk_parts ht
+    rw [tyCompact_struct h1]; exact ⟨h1, h2⟩
+  | _ => simp [isAtom] at ha
+
+theorem atom_eq {t u : Ty} (ha : isAtom t = true) (hb : isAtom u = true) (ht : cfrag t = true) (hu : cfrag u = true)
+    (h : tyCompact t = tyCompact u) : t = u := by
+  cases t with
+  | prim p =>
+    cases u with
+    | prim q => rw [tyCompact_prim, tyCompact_prim] at h; rw [primDoc_injective p q h]
+    | tstruct n =>
+      simp only [cfrag] at hu
+      obtain ⟨h1, _, h3⟩ := identOk_parts hu
+      rw [tyCompact_prim, tyCompact_struct h1] at h
+      exact absurd h (h3 p)
+    | _ => simp [isAtom] at hb
+  | tstruct n =>
+    simp only [cfrag] at ht
+    obtain ⟨h1, _, h3⟩ := identOk_parts ht
+    cases u with
+    | prim q =>
+      rw [tyCompact_prim, tyCompact_struct h1] at h
+      exact absurd h.symm (h3 q)
+    | tstruct m =>
+      simp only [cfrag] at hu
+      obtain ⟨g1, _, _⟩ := identOk_parts hu
+      rw [tyCompact_struct h1, tyCompact_struct g1] at h
+      rw [h]
+    | _ => simp [isAtom] at hb
+  | _ => simp [isAtom] at ha
+
+/-- an identifier run never starts like a parenthesised spelling -/
+theorem ident_ne_paren {a r x : Name} (h1 : a.all isIdentChar = true) (h2 : a ≠ []) : a ++ r ≠ '(' :: x := by
+  cases a with
+  | nil => exact absurd rfl h2
+  | cons c a' =>
+    simp only [List.all_cons, Bool.and_eq_true] at h1
+    intro h
+    simp only [List.cons_append, List.cons.injEq] at h
+    rw [h.1] at h1
+    exact absurd h1.1 (by decide)
+
+theorem bracket_headNot (x : Name) : headNot isIdentChar ('[' :: x) = true := by
+  have : isIdentChar '[' = false := by decide
+  simp [headNot, this]
+
+theorem stop_not_bracket {x : Name} : stopOk ('[' :: x) = false := by
+  have h1 : ('[' == ',') = false := by decide
+  have h2 : ('[' == ')') = false := by decide
+  have h3 : ('[' == ']') = false := by decide
+  simp [stopOk, h1, h2, h3]
+
+/-- first character of a fragment spelling: `(` or an identifier character -/
+def headOk : Name → Bool
+  | c :: _ => c == '(' || isIdentChar c
+  | [] => false
+
+theorem headOk_of_ident {n r : Name} (h1 : n.all isIdentChar = true) (h2 : n ≠ []) : headOk (n ++ r) = true := by
+  cases n with
+  | nil => exact absurd rfl h2
+  | cons c n' =>
+    simp only [List.all_cons, Bool.and_eq_true] at h1
+    simp [headOk, h1.1]
+
+theorem tuple_append (ts : List Ty) (r : Name) : tyCompact (.ttuple ts) ++ r = '(' :: (joinC ts ++ ')' :: r) := by
+  rw [tyCompact_tuple]; simp
+
+theorem app_append {n : Name} (h : n.all isIdentChar = true) (a : Ty) (as : List Ty) (r : Name) :
+    tyCompact (.tapp (.tstruct n) (a :: as)) ++ r = n ++ '[' :: (joinC (a :: as) ++ ']' :: r) := by
+  rw [tyCompact_app, tyCompact_struct h]; simp
+
+theorem cfrag_head (t : Ty) (r : Name) (h : cfrag t = true) : headOk (tyCompact t ++ r) = true := by
+  rcases cfrag_cases t h with ha | ⟨us, rfl, _⟩ | ⟨n, a, as, rfl, hn, _⟩
+  · obtain ⟨h1, h2⟩ := atom_spelling ha h
+    exact headOk_of_ident h1 h2
+  · rw [tuple_append]; rfl
+  · obtain ⟨h1, h2, _⟩ := identOk_parts hn
+    rw [app_append h1]
+    exact headOk_of_ident h1 h2
+
+theorem closer_not_head {c : Char} {r : Name} (hc : c = ')' ∨ c = ']') : headOk (c :: r) = false := by
+  rcases hc with h | h <;> subst h <;> (simp only [headOk]; decide)
+
+theorem closer_stop {c : Char} {r : Name} (hc : c = ')' ∨ c = ']') : stopOk (c :: r) = true := by
+  rcases hc with h | h <;> subst h <;> simp [stopOk]
+
+theorem joinC_cons_cons (t u : Ty) (rest : List Ty) : joinC (t :: u :: rest) = tyCompact t ++ ',' :: joinC (u :: rest) := by
+  simp [joinC, tyCompacts, join]
+
+theorem joinC_single (t : Ty) : joinC [t] = tyCompact t := by simp [joinC, tyCompacts, join]
+
+theorem joinC_nil : joinC [] = [] := by simp [joinC, tyCompacts, join]
+
+/-- a fragment spelling followed by a stop is parsed in exactly one way -/
+theorem tyCompact_unique (t : Ty) : ∀ u r r', cfrag t = true → cfrag u = true → stopOk r = true → stopOk r' = true →
+    tyCompact t ++ r = tyCompact u ++ r' → t = u ∧ r = r' := by
+  apply Ty.rec
+    (motive_1 := fun t => ∀ u r r', cfrag t = true → cfrag u = true → stopOk r = true → stopOk r' = true →
+      tyCompact t ++ r = tyCompact u ++ r' → t = u ∧ r = r')
+    (motive_2 := fun ts => ∀ us c r c' r', cfrags ts = true → cfrags us = true → (c = ')' ∨ c = ']') → (c' = ')' ∨ c' = ']') →
+      joinC ts ++ c :: r = joinC us ++ c' :: r' → ts = us ∧ c :: r = c' :: r')
+  case tvar => intro n u r r' h; simp [cfrag] at h
+  case tenum => intro n u r r' h; simp [cfrag] at h
+  case tdyn => intro n u r r' h; simp [cfrag] at h
+  case tarray => intro len e _ u r r' h; simp [cfrag] at h
+  case tvec => intro e _ u r r' h; simp [cfrag] at h
+  case tref => intro e _ u r r' h; simp [cfrag] at h
+  case tparam => intro n u r r' h; simp [cfrag] at h
+  case tfunc => intro ps r _ _ u r0 r' h; simp [cfrag] at h
+  case prim =>
+    intro p u r r' ht hu hr hr' h
+    have ha : isAtom (.prim p) = true := rfl
+    obtain ⟨a1, a2⟩ := atom_spelling ha ht
+    rcases cfrag_cases u hu with hb | ⟨us, rfl, _⟩ | ⟨n, a, as, rfl, hn, _⟩
+    · obtain ⟨b1, _⟩ := atom_spelling hb hu
+      obtain ⟨e1, e2⟩ := run_unique isIdentChar a1 b1 (stop_headNot hr) (stop_headNot hr') h
+      exact ⟨atom_eq ha hb ht hu e1, e2⟩
+    · rw [tuple_append] at h; exact absurd h (ident_ne_paren a1 a2)
+    · obtain ⟨h1, _, _⟩ := identOk_parts hn
+      rw [app_append h1] at h
+      obtain ⟨_, e2⟩ := run_unique isIdentChar a1 h1 (stop_headNot hr) (bracket_headNot _) h
+      rw [e2, stop_not_bracket] at hr; exact Bool.noConfusion hr
+  case tstruct =>
+    intro n0 u r r' ht hu hr hr' h
+    have ha : isAtom (.tstruct n0) = true := rfl
+    obtain ⟨a1, a2⟩ := atom_spelling ha ht
+    rcases cfrag_cases u hu with hb | ⟨us, rfl, _⟩ | ⟨n, a, as, rfl, hn, _⟩
+    · obtain ⟨b1, _⟩ := atom_spelling hb hu
+      obtain ⟨e1, e2⟩ := run_unique isIdentChar a1 b1 (stop_headNot hr) (stop_headNot hr') h
+      exact ⟨atom_eq ha hb ht hu e1, e2⟩
+    · rw [tuple_append] at h; exact absurd h (ident_ne_paren a1 a2)
+    · obtain ⟨h1, _, _⟩ := identOk_parts hn
+      rw [app_append h1] at h
+      obtain ⟨_, e2⟩ := run_unique isIdentChar a1 h1 (stop_headNot hr) (bracket_headNot _) h
+      rw [e2, stop_not_bracket] at hr; exact Bool.noConfusion hr
+  case ttuple =>
+    intro ts ih u r r' ht hu hr hr' h
+    simp only [cfrag] at ht
+    rw [tuple_append] at h
+    rcases cfrag_cases u hu with hb | ⟨us, rfl, hus⟩ | ⟨n, a, as, rfl, hn, _⟩
+    · obtain ⟨b1, b2⟩ := atom_spelling hb hu
+      exact absurd h.symm (ident_ne_paren b1 b2)
+    · rw [tuple_append] at h
+      simp only [List.cons.injEq, true_and] at h
+      obtain ⟨e1, e2⟩ := ih us ')' r ')' r' ht hus (Or.inl rfl) (Or.inl rfl) h
+      simp only [List.cons.injEq, true_and] at e2
+      exact ⟨by rw [e1], e2⟩
+    · obtain ⟨h1, h2, _⟩ := identOk_parts hn
+      rw [app_append h1] at h
+      exact absurd h.symm (ident_ne_paren h1 h2)
+  case tapp =>
+    intro t0 args _ ih u r r' ht hu hr hr' h
+    rcases cfrag_cases _ ht with ha | ⟨us, hcontra, _⟩ | ⟨n0, a0, as0, heq, hn0, hargs⟩
+    · simp [isAtom] at ha
+    · exact Ty.noConfusion hcontra
+    · have hinj := heq
+      simp only [Ty.tapp.injEq] at hinj
+      obtain ⟨ht0, hargs0⟩ := hinj
+      subst ht0; subst hargs0
+      obtain ⟨g1, g2, _⟩ := identOk_parts hn0
+      rw [app_append g1] at h
+      rcases cfrag_cases u hu with hb | ⟨us, rfl, _⟩ | ⟨n, a, as, rfl, hn, has⟩
+      · obtain ⟨b1, _⟩ := atom_spelling hb hu
+        obtain ⟨_, e2⟩ := run_unique isIdentChar g1 b1 (bracket_headNot _) (stop_headNot hr') h
+        rw [← e2, stop_not_bracket] at hr'; exact Bool.noConfusion hr'
+      · rw [tuple_append] at h
+        exact absurd h (ident_ne_paren g1 g2)
+      · obtain ⟨h1, _, _⟩ := identOk_parts hn
+        rw [app_append h1] at h
+        obtain ⟨e1, e2⟩ := run_unique isIdentChar g1 h1 (bracket_headNot _) (bracket_headNot _) h
+        simp only [List.cons.injEq, true_and] at e2
+        obtain ⟨e3, e4⟩ := ih (a :: as) ']' r ']' r' hargs has (Or.inr rfl) (Or.inr rfl) e2
+        simp only [List.cons.injEq, true_and] at e4
+        exact ⟨by rw [e1, e3], e4⟩
+  case nil =>
+    intro us c r c' r' _ hus hc hc' h
+    cases us with
+    | nil => rw [joinC_nil] at h; exact ⟨rfl, by simpa using h⟩
+    | cons u us' =>
+      exfalso
+      simp only [cfrags, Bool.and_eq_true] at hus
+      rw [joinC_nil, List.nil_append] at h
+      have hh : headOk (joinC (u :: us') ++ c' :: r') = true := by
+        cases us' with
+        | nil => rw [joinC_single]; exact cfrag_head u _ hus.1
+        | cons v rest => rw [joinC_cons_cons, List.append_assoc]; exact cfrag_head u _ hus.1
+      rw [← h, closer_not_head hc] at hh
+      exact Bool.noConfusion hh
+  case cons =>
+    intro t ts iht ihts us c r c' r' hts hus hc hc' h
+    simp only [cfrags, Bool.and_eq_true] at hts
+    cases us with
+    | nil =>
+      exfalso
+      rw [joinC_nil, List.nil_append] at h
+      have hh : headOk (joinC (t :: ts) ++ c :: r) = true := by
+        cases ts with
+        | nil => rw [joinC_single]; exact cfrag_head t _ hts.1
+        | cons v rest => rw [joinC_cons_cons, List.append_assoc]; exact cfrag_head t _ hts.1
+      rw [h, closer_not_head hc'] at hh
+      exact Bool.noConfusion hh
+    | cons u us' =>
+      simp only [cfrags, Bool.and_eq_true] at hus
+      cases ts with
+      | nil =>
+        cases us' with
+        | nil =>
+          rw [joinC_single, joinC_single] at h
+          obtain ⟨e1, e2⟩ := iht u _ _ hts.1 hus.1 (closer_stop hc) (closer_stop hc') h
+          exact ⟨by rw [e1], e2⟩
+        | cons v rest =>
+          exfalso
+          rw [joinC_single, joinC_cons_cons, List.append_assoc] at h
+          obtain ⟨_, e2⟩ := iht u _ _ hts.1 hus.1 (closer_stop hc) (by simp [stopOk]) h
+          simp only [List.cons_append, List.cons.injEq] at e2
+          rcases hc with hc | hc <;> (rw [hc] at e2; exact absurd e2.1 (by decide))
+      | cons w ts' =>
+        cases us' with
+        | nil =>
+          exfalso
+          rw [joinC_single, joinC_cons_cons, List.append_assoc] at h
+          obtain ⟨_, e2⟩ := iht u _ _ hts.1 hus.1 (by simp [stopOk]) (closer_stop hc') h
+          simp only [List.cons_append, List.cons.injEq] at e2
+          rcases hc' with hc' | hc' <;> (rw [hc'] at e2; exact absurd e2.1.symm (by decide))
+        | cons v rest =>
+          rw [joinC_cons_cons, joinC_cons_cons, List.append_assoc, List.append_assoc] at h
+          obtain ⟨e1, e2⟩ := iht u _ _ hts.1 hus.1 (by simp [stopOk]) (by simp [stopOk]) h
+          simp only [List.cons_append, List.cons.injEq, true_and] at e2
+          obtain ⟨e3, e4⟩ := ihts (v :: rest) c r c' r' hts.2 hus.2 hc hc' e2
+          exact ⟨by rw [e1, e3], e4⟩
+
+/-- **`ty_compact` is injective on the fragment** (primitives, structs with identifier names, tuples of any
+arity and nesting, applications `S[…]`) — the spelling `TypeMono::ensure_instance` and `spec_name_for` use
+for type arguments keeps brackets, commas and parentheses, so regrouping a tuple, nesting an application or
+a `_` inside a name never merges two types.  PARTIAL: enums (same text as a struct of that name), `Vec`,
+`Ref`, arrays, function types, `dyn` are outside the fragment. -/
+theorem tyCompact_injective_partial {t u : Ty} (ht : cfrag t = true) (hu : cfrag u = true)
+    (h : tyCompact t = tyCompact u) : t = u :=
+  (tyCompact_unique t u [] [] ht hu rfl rfl (by rw [List.append_nil, List.append_nil, h])).1
+
+/-- a generic type with ONE parameter: distinct fragment arguments give distinct instance names -/
+theorem monoTypeName_injective_one_param_partial (base : Name) {t u : Ty} (ht : cfrag t = true) (hu : cfrag u = true)
+    (h : monoTypeName base [t] = monoTypeName base [u]) : t = u := by
+  simp only [monoTypeName, join, List.map_cons, List.map_nil] at h
+  exact tyCompact_injective_partial ht hu (List.append_cancel_left h)
+
+/-- non-vacuity: the pairs the lossy spelling `encode_ty` merges are in the fragment and stay apart -/
+example :
+    let i := Ty.prim .int32
+    let a := Ty.ttuple [.ttuple [i, i], i, i]
+    let b := Ty.ttuple [.ttuple [i, i, i], i]
+    cfrag a = true ∧ cfrag b = true ∧ encodeTy a = encodeTy b ∧ tyCompact a ≠ tyCompact b := by decide
+example :
+    let a := Ty.tapp (.tstruct "Pair".toList) [.prim .int32]
+    let b := Ty.tstruct "Pair_int32".toList
+    cfrag a = true ∧ cfrag b = true ∧ encodeTy a = encodeTy b ∧ tyCompact a ≠ tyCompact b := by decide
+
+/-- KNOWN FINDING (negative witness): with TWO parameters the `__` that joins the arguments can also occur
+inside a name — `Duo[A__B, C]` and `Duo[A, B__C]`; the same for `spec_name_for` -/
+example : monoTypeName "Duo".toList [.tstruct "A__B".toList, .tstruct ['C']] = monoTypeName "Duo".toList [.tstruct ['A'], .tstruct "B__C".toList] := by decide
+example :
+    specNameFor "duo".toList [(['T'], .tstruct "A__U_B".toList), (['U'], .tstruct ['C'])] =
+    specNameFor "duo".toList [(['T'], .tstruct ['A']), (['U'], .tstruct "B__U_C".toList)] := by decide
+
+/-- the spelling functions mono.rs calls for type arguments, read off the source on every run -/
+theorem instance_names_use_tyCompact : Goml.Gen.instanceArgSpelling = "ty_compact" ∧ Goml.Gen.specArgSpelling = "ty_compact" := by decide
+
 /-! ## negative witnesses — each is a collision of the CURRENT encoders; `./check C19` replays every
 one on the real functions (PAIR lines) and on the real pipeline (WITNESS programs) -/
 
